@@ -303,13 +303,16 @@ ResultBlocked(a, i, e) ==
                                  !.j = j, !.b = jb, !.k = jobs[j].k, !.e = e])
 
 \* :392  idle timer of batch b, generation g, fires and its wake is consumed.
-Wake(b, g) ==
+\* (WakeAny: a wake of ANY earlier window may still be on its way when the
+\* dispatcher was busy for long - recorded executions; the exhaustive
+\* configurations look at the current and the previous window only)
+WakeAny(b, g) ==
   /\ Waiting
   /\ b \in 1..Len(bat) /\ bat[b].prog = 1 /\ g \in 1..bat[b].gen
   /\ LET B == bat[b]
          cur == B.live /\ g = B.gen
          A(res) == [NoAct EXCEPT !.op = "Wake", !.res = res, !.b = b, !.g = g]
-     IN  /\ ~cur => (cnt.stale < MaxStale /\ g >= B.gen - 1)
+     IN  /\ ~cur => cnt.stale < MaxStale
          /\ cnt' = IF cur THEN cnt ELSE [cnt EXCEPT !.stale = @ + 1]
          /\ UNCHANGED <<jobs, work, cq, wk, rank, ws, ans, dsp>>
          /\ IF ~B.live
@@ -319,6 +322,20 @@ Wake(b, g) ==
             ELSE /\ bat' = EndBatch(bat, b, 1, TRUE)
                  /\ verd' = [verd EXCEPT ![b] = Append(@, 1)]
                  /\ Finish(A("timeout"))
+
+Wake(b, g) ==
+  /\ b \in 1..Len(bat) /\ (~(bat[b].live /\ g = bat[b].gen) => g >= bat[b].gen - 1)
+  /\ WakeAny(b, g)
+
+\* Environment fact (executions under virtual time): the idle window g of batch
+\* b - the one its current timer (generation g, :259-:262) was armed for - has
+\* fully elapsed.  Nothing the dispatcher owns changes; what has to follow is
+\* judged by WorkManagerProps (IdleTimeoutEndsBatch).  Not part of Next: in the
+\* replayed configurations the idle timer is represented by its wake.
+IdleElapsedAny(b, g) ==
+  /\ b \in 1..Len(bat) /\ bat[b].prog = 1 /\ g = bat[b].gen
+  /\ UNCHANGED <<bat, jobs, work, cq, wk, rank, ws, verd, ans, dsp, cnt>>
+  /\ Finish([NoAct EXCEPT !.op = "IdleElapsed", !.b = b, !.g = g])
 
 \* The caller closes the cancel channel it passed with the batch.
 CancelAny(b) ==
